@@ -77,7 +77,7 @@ func (*c13Prop) Plans(tier string) []Plan {
 }
 
 // the first 9 entries are valid on a child-less non-terminal too
-var c13Interps = []string{"", "plain", "plain", "checker", "checker", "transformer", "both", "transformer-same", "both-same", "transformer-child", "select0", "selectlast", "array", "libnil"}
+var c13Interps = []string{"", "plain", "plain", "checker", "checker", "transformer", "both", "transformer-same", "both-same", "transformer-child", "select0", "selectlast", "array", "libnil", "both-nilptr"}
 
 func genTree(r *Rand, depth, maxDepth int, budget *int) TNode {
 	*budget--
@@ -201,7 +201,7 @@ func (t *TNode) valid(root bool) error {
 			if len(t.Kids) == 0 {
 				return fmt.Errorf("transformer-child on empty non-terminal")
 			}
-		case "", "plain", "checker", "transformer", "both", "transformer-same", "both-same", "array", "libnil":
+		case "", "plain", "checker", "transformer", "both", "transformer-same", "both-same", "array", "libnil", "both-nilptr":
 		default:
 			return fmt.Errorf("unknown interpreter %q", t.Interp)
 		}
@@ -499,6 +499,21 @@ func (h *hBoth) TransformNode(userCtx interface{}, node parsley.Node) (parsley.N
 	return (&hTransformer{h.hInterp}).TransformNode(userCtx, node)
 }
 
+// hNilBoth is used through a nil pointer; its methods work for the run in c13Cur.
+type hNilBoth struct{ _ int }
+
+var c13Cur *c13Run
+
+func (*hNilBoth) Eval(userCtx interface{}, node parsley.NonTerminalNode) (interface{}, parsley.Error) {
+	return (&hInterp{c13Cur, "both"}).Eval(userCtx, node)
+}
+func (*hNilBoth) StaticCheck(userCtx interface{}, node parsley.NonTerminalNode) (interface{}, parsley.Error) {
+	return (&hChecker{hInterp{c13Cur, "both"}}).StaticCheck(userCtx, node)
+}
+func (*hNilBoth) TransformNode(userCtx interface{}, node parsley.Node) (parsley.Node, parsley.Error) {
+	return (&hTransformer{hInterp{c13Cur, "both"}}).TransformNode(userCtx, node)
+}
+
 func (r *c13Run) interp(t *TNode) parsley.Interpreter {
 	switch t.Interp {
 	case "plain":
@@ -509,6 +524,11 @@ func (r *c13Run) interp(t *TNode) parsley.Interpreter {
 		return &hTransformer{hInterp{r, t.Interp}}
 	case "both", "both-same":
 		return &hBoth{hInterp{r, t.Interp}}
+	case "both-nilptr":
+		// an interface holding a NIL pointer of a type whose methods never touch the receiver:
+		// a perfectly good interpreter with all three capabilities
+		var p *hNilBoth
+		return p
 	case "select0":
 		return interpreter.Select(0)
 	case "selectlast":
@@ -608,7 +628,7 @@ func (x *mTree) isNT() bool { return x.t.Kind == "nt" }
 
 func (x *mTree) hasChecker() bool {
 	switch x.t.Interp {
-	case "checker", "both", "both-same", "select0", "selectlast":
+	case "checker", "both", "both-same", "select0", "selectlast", "both-nilptr":
 		return x.isNT()
 	}
 	return false
@@ -616,7 +636,7 @@ func (x *mTree) hasChecker() bool {
 
 func (x *mTree) hasTransformer() bool {
 	switch x.t.Interp {
-	case "transformer", "both", "transformer-same", "both-same", "transformer-child":
+	case "transformer", "both", "transformer-same", "both-same", "transformer-child", "both-nilptr":
 		return x.isNT()
 	}
 	return false
@@ -954,6 +974,7 @@ func kidsOfReal(n parsley.Node) []parsley.Node {
 func c13ExecuteSeq(tree *TNode, steps []c13Step) (calls []int, mismatch string) {
 	ctxv := 0
 	r := &c13Run{userCtx: &ctxv, ids: map[interface{}]int{}}
+	c13Cur = r
 	sf := text.NewFile("seq", []byte("x"))
 	r.seqCtx = parsley.NewContext(parsley.NewFileSet(sf), text.NewReader(sf))
 	root := r.build(tree)
